@@ -296,7 +296,7 @@ func (p *Prog) Methods(pkg, recv string) []*ast.FuncDecl {
 	var out []*ast.FuncDecl
 	for _, f := range pk.Syntax {
 		for _, d := range f.Decls {
-			if fd, ok := d.(*ast.FuncDecl); ok && fd.Recv != nil && recvTypeName(fd) == recv {
+			if fd, ok := d.(*ast.FuncDecl); ok && fd.Recv != nil && recvTypeName(fd) == recv && !inlinedAway[fd] {
 				out = append(out, fd)
 			}
 		}
@@ -314,7 +314,7 @@ func (p *Prog) AllFuncDecls(pkg string) []*ast.FuncDecl {
 	var out []*ast.FuncDecl
 	for _, f := range pk.Syntax {
 		for _, d := range f.Decls {
-			if fd, ok := d.(*ast.FuncDecl); ok {
+			if fd, ok := d.(*ast.FuncDecl); ok && !inlinedAway[fd] {
 				out = append(out, fd)
 			}
 		}
